@@ -784,6 +784,53 @@ func ruleC15(c *Ctx, r *Report) {
 	if dollarRenames < 2 {
 		r.Bad("C15-R3", "dollar-renames", "-", fmt.Sprintf("only %d '$field' rename site(s) (query walker and array walker expected)", dollarRenames))
 	}
+	// each of the three value walkers (query documents, stage documents, arrays) renames a
+	// '$field' reference it meets as a value: a reference that is a direct member of a
+	// stage document ({$group: {_id: "$city"}}, {$max: "$f"}) is a value like any other
+	renamesIn := map[*ssa.Function]bool{}
+	for _, s := range p.sinks(p.Zone) {
+		hc, ok := peel(s.Val).(*ssa.Call)
+		if !ok || hc.Call.StaticCallee() != hn || (s.Kind != "set" && s.Kind != "store") {
+			continue
+		}
+		hasDollar, hasFlag := false, false
+		for _, a := range p.atomsAt(s.Instr.Block()) {
+			if a.Kind == "dollar" && a.Pol && (rootOf(a.X) == rootOf(hc.Call.Args[0]) || a.X == hc.Call.Args[0]) {
+				hasDollar = true
+			}
+			if a.Kind == "param" && a.Pol {
+				hasFlag = true
+			}
+		}
+		if hasDollar && hasFlag {
+			renamesIn[s.Fn] = true
+		}
+	}
+	var valueWalkers []*ssa.Function
+	if sw := c.stageWalkerFn(); sw != nil {
+		valueWalkers = append(valueWalkers, sw)
+	}
+	for _, f := range fns {
+		if f == c.stageWalkerFn() {
+			continue
+		}
+		// the query walker (ordered map in, ordered map out) and the in-place array walker
+		res := f.Signature.Results()
+		hasFlag := false
+		for _, prm := range f.Params {
+			if flags[prm] {
+				hasFlag = true
+			}
+		}
+		if hasFlag && res.Len() == 1 && (isOrderedMapPtr(res.At(0).Type()) || isAnySlice(res.At(0).Type())) && len(p.walkerLoops(f)) > 0 {
+			valueWalkers = append(valueWalkers, f)
+		}
+	}
+	for _, f := range valueWalkers {
+		r.Check(renamesIn[f], "C15-R3", f.Name()+":dollar-string-value-renamed", c.Pos(f.Pos()),
+			"a '$field' reference met as a value is stored as HashName(reference) under the flag",
+			"this walker never renames a '$field' reference it meets as a value: under --redactFieldNames such a reference becomes the generic placeholder instead of the pseudonym the same field has as a key")
+	}
 	c01Dispatch2(c, r, p, []string{"sort"}, "C15-R3")
 
 	// ---- R4 confinement of renames
